@@ -179,7 +179,7 @@ class HdlcModel:
         self.leaving = leaving
         for p in leaving:
             # the only way out of the loop is its test: a path that pops an octet and then leaves is not a per-octet step
-            if any(e[0] == "callm" and e[1] == self.f0(self.roles.buffer) and self.bkind(e[2]) not in ("trim-pos", "avail", "len") and not isinstance(self.bkind(e[2]), tuple) for e in p.effects):
+            if any(e[0] == "callm" and e[1] == self.f0(self.roles.buffer) and self.bkind(e[2]) == "pop-octet" for e in p.effects):
                 raise Undecided(f"read-loop path leaves the loop with status {p.status} after consuming input")
         return node, conts
 
